@@ -10,7 +10,7 @@ import (
 func init() {
 	register("C15.R1", "node-kind exhaustiveness: copyAST has a case for every concrete ast.Node type of the go/ast the repository builds against (except File and Package, which cannot occur below a declaration); children are copied before parents",
 		func(c *Ctx, r *R) {
-			fi := r.Need(c.Fn(c.W, "copyAST"), "copyAST")
+			fi := r.Need(copierFn(c), "copyAST")
 			if fi == nil {
 				return
 			}
@@ -61,7 +61,7 @@ func init() {
 
 	register("C15.R2", "field completeness: each case of copyAST sets every non-position field of the node struct, plus the semantic positions (CallExpr.Ellipsis, TypeSpec.Assign, GenDecl.Lparen/Rparen), from the same-named field of the original",
 		func(c *Ctx, r *R) {
-			fi := r.Need(c.Fn(c.W, "copyAST"), "copyAST")
+			fi := r.Need(copierFn(c), "copyAST")
 			if fi == nil {
 				return
 			}
@@ -219,7 +219,7 @@ func init() {
 			var applies []*ast.CallExpr
 			for _, cl := range fi.callsDeep(fi.Decl.Body) {
 				switch fi.calleeName(cl) {
-				case pathW + ".copyAST":
+				case pathW + ".copyAST", pathW + ".copyASTWithOriginals":
 					copyPos = cl
 				case "golang.org/x/tools/go/ast/astutil.Apply":
 					if firstApply == nil {
@@ -316,6 +316,93 @@ func init() {
 		})
 }
 
+func init() {
+	register("C15.R6", "type information is looked up with original syntax: a types.Info map keyed by non-identifier nodes (Scopes, Types, Selections, Implicits) or Info.TypeOf is never applied to a node of the copied tree — copyAST only preserves the identity of identifiers — unless the node is first mapped back to its original",
+		func(c *Ctx, r *R) {
+			fi := r.Need(c.Fn(c.W, "gen.rewritePkgRefs"), "gen.rewritePkgRefs")
+			if fi == nil {
+				return
+			}
+			// the root of the copied tree and (when present) the copy→original map
+			var copyRoot, originals *types.Var
+			for _, cl := range fi.callsDeep(fi.Decl.Body) {
+				n := fi.calleeName(cl)
+				if n != pathW+".copyAST" && n != pathW+".copyASTWithOriginals" {
+					continue
+				}
+				if as, ok := fi.parent[cl].(*ast.AssignStmt); ok {
+					copyRoot = fi.varOf(as.Lhs[0])
+					if len(as.Lhs) == 2 {
+						originals = fi.varOf(as.Lhs[1])
+					}
+				}
+			}
+			if copyRoot == nil {
+				r.Bad("copy-root", fi.Decl.Pos(), "the copied tree is not bound to a variable")
+				return
+			}
+			infoMaps := map[string]bool{"Scopes": true, "Types": true, "Selections": true, "Implicits": true, "Instances": false}
+			// a key is a node of the copy if it derives from Cursor.Node()/Parent() inside an Apply over the copy
+			fromCopy := func(e ast.Expr) bool {
+				found := false
+				ast.Inspect(e, func(nd ast.Node) bool {
+					if cl, ok := nd.(*ast.CallExpr); ok {
+						if n := fi.calleeName(cl); n == "golang.org/x/tools/go/ast/astutil.Cursor.Node" || n == "golang.org/x/tools/go/ast/astutil.Cursor.Parent" {
+							// inside a callback of Apply(copyRoot, …)
+							for p := fi.parent[ast.Node(cl)]; p != nil; p = fi.parent[p] {
+								if ap, ok := p.(*ast.CallExpr); ok && fi.calleeName(ap) == "golang.org/x/tools/go/ast/astutil.Apply" && fi.varOf(ap.Args[0]) == copyRoot {
+									found = true
+								}
+							}
+						}
+					}
+					if id, ok := nd.(*ast.Ident); ok {
+						if v, ok := fi.Info.Uses[id].(*types.Var); ok {
+							if d := fi.singleDef(v); d != nil && d.rhs != e {
+								if cl := fi.isCall(d.rhs, "golang.org/x/tools/go/ast/astutil.Cursor.Node"); cl != nil {
+									found = true
+								}
+							}
+						}
+					}
+					return true
+				})
+				return found
+			}
+			mappedBack := func(e ast.Expr) bool {
+				ix, ok := ast.Unparen(e).(*ast.IndexExpr)
+				return ok && originals != nil && fi.varOf(ix.X) == originals
+			}
+			n := 0
+			fi.inspect(fi.Decl.Body, func(nd ast.Node) bool {
+				switch x := nd.(type) {
+				case *ast.IndexExpr:
+					f := fi.selField(x.X)
+					if f == nil || !infoMaps[f.Name()] || !fi.typeIs(x.X.(*ast.SelectorExpr).X, "go/types", "Info") {
+						return true
+					}
+					n++
+					k := "Info." + f.Name() + "[" + exprShort(x.Index) + "]"
+					if mappedBack(x.Index) {
+						r.Ok(k, x.Pos(), "key is mapped back to the original node first")
+					} else {
+						r.Check(!fromCopy(x.Index), k, x.Pos(), "Info.%s is keyed by original nodes; a node of the copied tree never matches (the lookup silently yields nothing)", f.Name())
+					}
+				case *ast.CallExpr:
+					if fi.calleeName(x) == "go/types.Info.TypeOf" && len(x.Args) == 1 {
+						if _, isIdent := fi.Info.TypeOf(x.Args[0]).(*types.Pointer); isIdent && types.TypeString(fi.Info.TypeOf(x.Args[0]), nil) == "*go/ast.Ident" {
+							return true
+						}
+						n++
+						r.Check(!fromCopy(x.Args[0]) || mappedBack(x.Args[0]), "Info.TypeOf("+exprShort(x.Args[0])+")", x.Pos(), "TypeOf is applied to original syntax")
+					}
+				}
+				return true
+			})
+			r.Floor("node-keyed type-information lookups in rewritePkgRefs", n, 2)
+		})
+}
+
 // copyASTSwitch finds the type switch inside copyAST's astutil.Apply callback.
 func copyASTSwitch(fi *FuncInfo) *ast.TypeSwitchStmt {
 	var sw *ast.TypeSwitchStmt
@@ -326,4 +413,15 @@ func copyASTSwitch(fi *FuncInfo) *ast.TypeSwitchStmt {
 		return true
 	})
 	return sw
+}
+
+// copierFn returns the function that holds the per-node-kind copy switch:
+// copyAST itself, or the function it delegates to.
+func copierFn(c *Ctx) *FuncInfo {
+	for _, name := range []string{"copyAST", "copyASTWithOriginals"} {
+		if fi := c.Fn(c.W, name); fi != nil && copyASTSwitch(fi) != nil {
+			return fi
+		}
+	}
+	return c.Fn(c.W, "copyAST")
 }
